@@ -74,6 +74,7 @@ def shape_is(t, dims):
 def build(tier):
     P = Prop("C15")
     P.lib["numpy.expand_dims"] = expand_dims
+    P.lib["numpy.shape"] = lambda ex, st, a, k: tuple(a[0].shape)
     P.trusted += ["numpy.expand_dims(x, 0) / Tensor.unsqueeze(0) prepend a dimension of size 1; reshape/view(-1, *s) of an array whose "
                   "trailing dimensions are s keeps them and multiplies the leading ones",
                   "gymnasium space attributes: Box.shape, MultiBinary.shape = (n,)"]
@@ -184,6 +185,20 @@ def build(tier):
             if name in self.kw:
                 return self.kw[name]
             raise Undecided(f"space attribute {name}")
+    class StartArr:
+        """space.start of a MultiDiscrete space (all zeros here): np.asarray(...).reshape(-1)[i]"""
+
+        def __init__(self, vals):
+            self.vals = vals
+
+        def getattr(self, ex, st, name):
+            if name == "reshape":
+                return Fn(model=lambda ex, st, a, k: self, name=name)
+            raise Undecided(name)
+
+        def getitem(self, ex, st, idx):
+            return self.vals[idx]
+    P.lib["numpy.asarray"] = lambda ex, st, a, k: a[0]
     P.lib[AU + "obs_to_tensor"] = lambda ex, st, a, k: (ND(a[0].shape, a[0].at, a[0].label, False) if isinstance(a[0], ND) else a[0])
 
     def onehot_post(nvec):
@@ -203,11 +218,11 @@ def build(tier):
     P.specns["onehot_multi"] = onehot_post([2, 3])
     P.contract(AU + "preprocess_observation", variant="Discrete3-batch",
                params={"observation": (lambda ex, st, l: ND([B], lambda idx: DOBS(z3ify(idx[0]), z3.IntVal(0)), "obs", True)),
-                       "observation_space": (lambda ex, st, l: SpaceK("Discrete", n=3)), "device": (lambda ex, st, l: "cpu"), "normalize_images": (lambda ex, st, l: True)},
+                       "observation_space": (lambda ex, st, l: SpaceK("Discrete", n=3, start=0)), "device": (lambda ex, st, l: "cpu"), "normalize_images": (lambda ex, st, l: True)},
                requires=[], frame_fields=False, ensures=["onehot_discrete(result)"], replay="c15:values")
     P.contract(AU + "preprocess_observation", variant="MultiDiscrete23-batch",
                params={"observation": (lambda ex, st, l: ND([B, 2], lambda idx: DOBS(z3ify(idx[0]), z3ify(idx[1])), "obs", True)),
-                       "observation_space": (lambda ex, st, l: SpaceK("MultiDiscrete", nvec=[2, 3], shape=(2,))), "device": (lambda ex, st, l: "cpu"),
+                       "observation_space": (lambda ex, st, l: SpaceK("MultiDiscrete", nvec=[2, 3], shape=(2,), start=StartArr([0, 0]))), "device": (lambda ex, st, l: "cpu"),
                        "normalize_images": (lambda ex, st, l: True)},
                requires=[], frame_fields=False, ensures=["onehot_multi(result)"], replay="c15:values")
     P.native.append(dict(name="preprocess_values", adapter="c15:values", bound="Box rank 0-3, Discrete n in 1..4, MultiDiscrete, MultiBinary, Dict/Tuple; "
